@@ -7,14 +7,14 @@ ROOT = os.path.dirname(os.path.dirname(os.path.abspath(__file__)))
 
 # id -> (category, technique, level text, level note)
 CHECKS = {
- "C01": ("model_checking", "explicit-state exploration of the proof protocol as a game: bounded adversary move vectors (<= 2/3 dishonest moves), every terminal state run on the real StarkProof::verify",
+ "C01": ("model_checking", "explicit-state exploration of the proof protocol as a game: bounded adversary, 6 rounds with finite move menus (quick: all vectors with <= 2 dishonest moves + 6 named three-move attacks; thorough: all 3 024 move vectors), every terminal state assembled by an in-harness prover and run on the real StarkProof::verify",
          "every prover strategy of a finite move menu (configuration re-declarations, decoupled composition values, vector lengths, FRI of an unrelated polynomial, adaptive leaves, forged paths) with a trace that violates the AIR is rejected; states/transitions of the game tree are reported",
          "bounded adversary, one small trace size per layout; hash collision resistance and FRI soundness error are assumptions"),
  "C02": ("exploration", "exhaustive single-deviation sweep (every position x mutation menu, every single-element deletion) of honest proofs on the real verifier",
-         "every leaf and every vector element of the serde tree of each honest proof is mutated once; no mutant may be accepted",
+         "every leaf and every vector element of the serde tree of each honest proof is mutated once (quick: full sweep of the recursive proofs of the 3 native builds, one representative per position class on the other layouts); no mutant may be accepted",
          "exactly one deviation; builds without a shipped proof are covered at component level (C04-C07)"),
  "C03": ("exploration", "complete enumeration of the finite (honest proof x build x layout) space with an independent proof loader",
-         "26 honest proofs x 8 builds x 7 layouts (thorough; 3 native builds in quick): accept iff matching, hashes equal by-address Pedersen chains, serde round trip stable",
+         "26 honest proofs x 8 builds x 7 layouts (thorough; the 3 native builds + blake2s_160/stone6 in quick): accept iff matching, hashes equal by-address Pedersen chains, serde round trip stable",
          "only the 26 honest proofs available offline represent 'every Stone proof'"),
  "C04": ("exploration", "exhaustive enumeration of tree shapes, friendly-layer boundaries and query subsets with all single-position corruptions against a reference Merkle tree",
          "all heights <= 3 (quick) / <= 4 with all 65535 subsets (thorough), every friendly/masked boundary, 4 hash variants; complete and binding on every case",
